@@ -70,6 +70,7 @@ type Term struct {
 	Sort Sort
 	// constant payloads
 	Def     string // for definitional assertions (= sym term): the defined symbol
+	Reveal  bool   // the definitional axiom of an opaque spec function (left out of the first solving attempt)
 	IsConst bool
 	BVal    *big.Int // for BV / Int constants
 	BoolVal bool
